@@ -382,3 +382,82 @@ func mustFollow(fn *ssa.Function, edges EdgeFilter, A, B InstrPred) []*ssa.Basic
 func neverAfter(fn *ssa.Function, edges EdgeFilter, A, B, C InstrPred) []*ssa.BasicBlock {
 	return findPath(after(fn, A), edges, C, B)
 }
+
+// enumPaths enumerates the acyclic block paths from start (block, instruction index) that end by
+// taking the CFG edge last→to, following only edges admitted by the filter. visit gets the block
+// sequence (start block first, `last` last). At most limit paths are visited; returns false if the
+// limit was hit.
+func enumPaths(start point, edges EdgeFilter, last, to *ssa.BasicBlock, limit int, visit func(path []*ssa.BasicBlock)) bool {
+	n := 0
+	ok := true
+	onPath := map[*ssa.BasicBlock]bool{}
+	var path []*ssa.BasicBlock
+	var dfs func(b *ssa.BasicBlock)
+	dfs = func(b *ssa.BasicBlock) {
+		if !ok {
+			return
+		}
+		onPath[b] = true
+		path = append(path, b)
+		defer func() {
+			onPath[b] = false
+			path = path[:len(path)-1]
+		}()
+		for si, s := range b.Succs {
+			if edges != nil && !edges(b, si) {
+				continue
+			}
+			if b == last && s == to {
+				n++
+				if n > limit {
+					ok = false
+					return
+				}
+				visit(append([]*ssa.BasicBlock(nil), path...))
+				continue
+			}
+			if onPath[s] {
+				continue
+			}
+			dfs(s)
+		}
+	}
+	dfs(start.b)
+	return ok
+}
+
+// resolveAlong resolves v through the phis of the blocks on path (each phi takes the operand of
+// the predecessor that precedes its block on the path) until a non-phi value, or a phi of a block
+// that is not entered on the path, is reached.
+func resolveAlong(v ssa.Value, path []*ssa.BasicBlock) ssa.Value {
+	for i := 0; i < 16; i++ {
+		ph, ok := v.(*ssa.Phi)
+		if !ok {
+			return v
+		}
+		pos := -1
+		for k := len(path) - 1; k >= 1; k-- {
+			if path[k] == ph.Block() {
+				pos = k
+				break
+			}
+		}
+		if pos < 1 {
+			return v
+		}
+		pred := path[pos-1]
+		found := false
+		for pi, pb := range ph.Block().Preds {
+			if pb == pred {
+				v = ph.Edges[pi]
+				found = true
+				break
+			}
+		}
+		if !found {
+			return v
+		}
+		path = path[:pos]
+	}
+	return v
+}
